@@ -700,3 +700,4 @@ RENAME_FUNCS = [(F, 'transpose_note_sequence'), (CS, 'transpose_chord_symbol'), 
 
 EXPLANATION += (' Location-independent additions: DRUM/keep-condition and DRUM/total-time (three-valued evaluation with is_drum true), SEQ/melody-case (path-wise values + residue algebra for x % 12, x // 12), SEQ/chords-memo-key (a memo is keyed by the figure read), TAB/mod-12 definite form.')
 EXPLANATION += (' Round 6: ' + 'SPELL/alteration-magnitude (the alteration is not only compared in _pitch_class_to_string); SEQ/leadsheet-every-exit (must-pass-through over the normal exits of LeadSheet.transpose; a skipped delegate is located when its guard is taken for an amount of 12).')
+EXPLANATION += (' Round 7: ' + 'SEQ/squash-every-exit (must-pass-through); PITFALL/falsy-zero over chord_symbols_lib.')
